@@ -41,7 +41,9 @@ CfgDims == [
   acr    |-> {"nil", "allowed"},
   \* how the verifier is obtained: rp.NewIDTokenVerifier with the options, or rp.NewRelyingPartyOIDC(WithVerifierOpts(options...),
   \* WithSigningAlgsFromDiscovery()).IDTokenVerifier() against a discovery document
-  via    |-> {"direct", "rpOIDC"} ]
+  \* rpRefresh / rpExchange: the same relying party verifies the ID token of a refresh-grant / code-exchange response
+  \* (rp.RefreshTokens, rp.CodeExchange against a token endpoint that answers with the case's tokens)
+  via    |-> {"direct", "rpOIDC", "rpRefresh", "rpExchange"} ]
 
 Cfgs == [offset : CfgDims.offset, maxIAT : CfgDims.maxIAT, maxAge : CfgDims.maxAge, nonce : CfgDims.nonce, acr : CfgDims.acr, via : CfgDims.via]
 
@@ -65,9 +67,11 @@ Groups == Cfgs
 CasesOf(cfg) ==
   LET d1 == Dev1({Base(cfg)})  d2 == Dev1(d1)
       \* verifiers obtained through the relying-party constructor: the single-dimension deviations (quick), two (thorough)
-      ts == IF cfg.via = "rpOIDC" THEN (IF Tier = "quick" THEN d1 ELSE d2)
-            ELSE IF Tier = "quick" \/ cfg \notin NearCfgs THEN d2 ELSE Dev1(d2) IN
-  {[tok |-> t, cfg |-> cfg] : t \in ts}
+      ts == IF cfg.via # "direct" THEN (IF Tier = "quick" THEN d1 ELSE d2)
+            ELSE IF Tier = "quick" \/ cfg \notin NearCfgs THEN d2 ELSE Dev1(d2)
+      \* a token response always delivers the access token next to the ID token
+      us == IF cfg.via \in {"rpRefresh", "rpExchange"} THEN {t \in ts : t.withAT} ELSE ts IN
+  {[tok |-> t, cfg |-> cfg] : t \in us}
 
 -----------------------------------------------------------------------------
 (* The property sentence. *)
